@@ -184,6 +184,7 @@ OPTION_SETS = [
     {'remove_lines': ['a']},
     {'preprocess': drop_first}, {'preprocess': drop_first, 'remove_lines': ['skip']},
     {'max_permutation_cases': 1}, {'max_permutation_cases': 2}, {'max_permutation_cases': 3},
+    {'max_permutation_cases': 4},
     {'max_permutation_cases': 2, 'lstrip': True},
     {'max_permutation_cases': 2, 'ignore_patterns': [r'\d+']},
     {'remove_lines': ['skip'], 'ignore_patterns': [r'\d+'], 'lstrip': True, 'rstrip': True,
@@ -210,6 +211,11 @@ def variants(E, rnd, pool):
                 yield F
     if len(E) >= 3:
         yield E[1:] + E[:1]
+    # same distinct lines, different multiplicities (not a permutation)
+    ds = sorted(set(E))
+    if len(ds) >= 2 and len(E) >= 3:
+        x, y = ds[0], ds[1]
+        yield [y if l == x else x if l == y else l for l in E]
 
 
 def desc_opts(o):
@@ -353,6 +359,17 @@ def _work(args):
     return (b.evaluations, b.distinct, b.samples, b.failures, b.contracts)
 
 
+def permutation_family():
+    """Every pair of texts of 2..4 lines over {p, q} x max_permutation_cases 0..4 (complete for that alphabet)."""
+    out = []
+    for n in (2, 3, 4):
+        for A in itertools.product(('p', 'q'), repeat=n):
+            for E in itertools.product(('p', 'q'), repeat=n):
+                for mpc in (0, 2, 3, 4):
+                    out.append((list(A), list(E), mpc))
+    return out
+
+
 def gen_cases(tier, seed):
     rnd = random.Random(seed)
     pool = LINES if tier != 'quick' else LINES[:12]
@@ -365,6 +382,11 @@ def gen_cases(tier, seed):
     if tier == 'quick':
         rnd.shuffle(bases)
         bases = bases[:260]
+    for A, E, mpc in permutation_family():
+        oi = {0: 0, 2: OPTION_SETS.index({'max_permutation_cases': 2}),
+              3: OPTION_SETS.index({'max_permutation_cases': 3}),
+              4: OPTION_SETS.index({'max_permutation_cases': 4})}[mpc]
+        cases.append((A, E, oi))
     for E in bases:
         vs = list(variants(E, rnd, pool))
         if tier == 'quick' and len(vs) > 14:
